@@ -890,7 +890,8 @@ impl Model for M17Probe {
         }
         // extend only while the decoder asks beyond the script (a panic counts as not asking)
         match self.entries[st.ty].probe(&st.script, st.hr) {
-            Ok((_, asked)) if asked > st.script.len() => self.alphabet.clone(),
+            // third and later answers come from the reduced alphabet (one length per array size and its neighbours)
+            Ok((_, asked)) if asked > st.script.len() => if st.script.len() >= 2 { crate::probe::alphabet_small() } else { self.alphabet.clone() },
             _ => vec![],
         }
     }
